@@ -740,8 +740,13 @@ pub struct Replay {
     pub seed: Option<u64>,
 }
 pub fn load_replay(path: &str) -> Result<Replay, String> {
-    let txt = std::fs::read_to_string(path).map_err(|e| format!("{}: {}", path, e))?;
-    let v: Value = serde_json::from_str(&txt).map_err(|e| format!("{}: {}", path, e))?;
+    let raw = std::fs::read(path).map_err(|e| format!("{}: {}", path, e))?;
+    let parsed: Option<Value> = std::str::from_utf8(&raw).ok().and_then(|t| serde_json::from_str(t).ok()).filter(|v: &Value| v.get("sub").is_some());
+    let v = match parsed {
+        Some(v) => v,
+        // not one of our replay documents: a raw input saved by a fuzzer (C10: bytes, C11: text)
+        None => return Ok(Replay { sub: "raw-file".to_string(), choices: raw.iter().map(|b| *b as u32).collect(), seed: None }),
+    };
     let sub = v["sub"].as_str().ok_or("replay file without 'sub'")?.to_string();
     let choices = v["choices"]
         .as_array()
